@@ -30,7 +30,7 @@ SYS_PROPS = ['C01', 'C02', 'C03', 'C06', 'C08', 'C10', 'C12', 'C15', 'C19', 'C20
 
 # exhaustive configurations of S: (cfg file, properties whose design-level statement it checks)
 MC_CFGS = {
-    'quick': ['BertE.q.cfg', 'BertE.nq.cfg', 'BertE.sk.cfg', 'BertE.qs.cfg', 'BertE.fq.cfg', 'BertE.qh.cfg', 'BertE.r.cfg', 'BertE.adm.cfg', 'BertE.ap.cfg'],
+    'quick': ['BertE.q.cfg', 'BertE.nq.cfg', 'BertE.sk.cfg', 'BertE.qs.cfg', 'BertE.fq.cfg', 'BertE.qh.cfg', 'BertE.r.cfg', 'BertE.adm.cfg', 'BertE.ap.cfg', 'BertE.cv.cfg'],
     'thorough': ['BertE.q.t.cfg', 'BertE.nq.t.cfg', 'BertE.sk.t.cfg', 'BertE.qs.t.cfg', 'BertE.q3.t.cfg', 'BertE.qh.t.cfg', 'BertE.r.t.cfg', 'BertE.r2.cfg', 'BertE.adm.t.cfg', 'BertE.fa.cfg', 'BertE.o.cfg',
                  'BertE.f.cfg', 'BertE.fp.cfg', 'BertE.fr.cfg', 'BertE.wnq.cfg', 'BertE.wq.cfg'],
 }
@@ -360,7 +360,7 @@ CLAUSES = {p: p + '.' for p in SYS_PROPS}
 MC_PROPS = {   # design-level statements checked on S (names in BertE.tla)
     'C01': ['C01_Incl'], 'C02': ['C02_AllOrNone'], 'C03': ['C03_Green', 'C05_Select'],
     'C08': ['C08_FF', 'C08_Foreign'], 'C12': ['C12_Held'], 'C19': ['C19_Children'],
-    'C06': ['C06_Gate'], 'C04': ['C04_Gate'], 'C10': ['C10_CmdConsumed'], 'C15': ['C15_ManualKept', 'C15_OwnOnly', 'C15_LossyRefuses'],
+    'C06': ['C06_Gate'], 'C04': ['C04_Gate'], 'C10': ['C10_CmdConsumed', 'C10_Converge'], 'C15': ['C15_ManualKept', 'C15_OwnOnly', 'C15_LossyRefuses'],
     'C20': ['C20_EntryFate', 'C20_DestDel'],
 }
 
